@@ -508,6 +508,10 @@ def run(rec, tier, seed):
         cases.append({'kind': 'model', 'model': 'FJC', 'params': {'N': N, 'l': g}, 'kset': ks})
         if N <= 1000:
             cases.append({'kind': 'model', 'model': 'GaussianRing', 'params': {'N': N, 'sigma': g}, 'kset': ks})
+    # long / large rings (N sigma^2 >= 3000): the pair sum has thousands of terms between e^-50 and 1 at the low k of a Domain grid
+    for N, g in [(400, 4.0), (2000, 1.5), (3000, 1.0)] + ([] if quick else [(5000, 1.0), (10000, 1.0), (10000, 0.8), (1000, 3.0)]):
+        for ks in ['decades', 'dk0.05x100', 'dr0.1x128'] + ([] if quick else ['dr0.1x1024']):
+            cases.append({'kind': 'model', 'model': 'GaussianRing', 'params': {'N': N, 'sigma': g}, 'kset': ks})
     cases.append({'kind': 'model', 'model': 'FJCalias', 'params': {'N': 10, 'l': 1.0}, 'kset': 'decades'})
     for m in ('SingleSite', 'NoIntra', 'InterMolecular'):
         for ks in ksets:
@@ -537,6 +541,10 @@ def run(rec, tier, seed):
         cases.append({'kind': 'koyama_fj', 'N': N, 'l': l})
     for sg, l, lp in [(1.0, 0.5, 2.0), (1.0, 0.4, 2.0), (2.0, 1.0, 5.0), (1.0, 1.0, 1.2), (1.0, 1.0, 1.0), (1.0, 0.8, 1.0), (1.0, 1.5, 1.6)]:
         cases.append({'kind': 'invalid', 'params': {'sigma': sg, 'l': l, 'N': 10, 'lp': lp}})
+    # just below the smallest persistence length that keeps neighbours apart (relative 1e-6 and 1e-9: far above rounding of lp_min itself)
+    for sg, l in [(1.0, 1.0), (1.0, 0.8), (1.3, 1.0), (0.8, 1.5)]:
+        for f in (1 - 1e-6, 1 - 1e-9, 1 - 1e-3):
+            cases.append({'kind': 'invalid', 'params': {'sigma': sg, 'l': l, 'N': 10, 'lp': float(4.0 * l ** 3 / (4.0 * l ** 2 - sg ** 2) * f)}})
     core.pmap(_worker, cases, rec)
     rec.note('alphabets', {'N_closed_forms': Ns, 'geometry': geo, 'ksets': ksets, 'N_nfjc': nN, 'N_koyama': kN,
                            'koyama_lp_over_lp_min': LPF, 'koyama_sigma_l': [(1.0, 0.8), (1.0, 1.0), (1.0, 1.5), (0.8, 1.0), (1.3, 1.0)]})
